@@ -79,7 +79,14 @@ def show_plot(
 
     sim_class = cfgwrap(sim_cfg)
 
+    # a run in which no trajectory survived leaves a valid table without rows
+    if len(sim_results) == 0:
+        click.echo(f"{simulation_file} holds no events: nothing to plot")
+        return
+
     simulation.geometry.region_geometry.show_plot(sim_results, sim_class, plot)
     simulation.taus.taus.show_plot(sim_results, sim_class, plot)
-    simulation.eas_optical.eas.show_plot(sim_results, sim_class, plot)
+    # a radio-only run has no optical columns
+    if "numPEs" in sim_results.colnames:
+        simulation.eas_optical.eas.show_plot(sim_results, sim_class, plot)
     plots.show_plot(sim_results, sim_class, plot)
